@@ -152,7 +152,31 @@ def rule_p4(chk: Check, ix: Index, I):
     ok = len(binops) == 1 and {k.arg: norm_stmt(k.value) for k in binops[0].keywords}.get("left") == "tree"
     chk.require(ok, "P4-verbatim-words", "_append_node_or_token:concat-order", f.where,
                 "the general concatenation must keep the previous piece on the left")
-    # cmd_name: plain words are single tokens of any kind except closers
+    # element order: in every list built from both, what comes from the previous pieces precedes what comes from the new piece
+    params = [a.arg for a in f.node.args.args]
+    prev_p, cur_p = params[1], params[2]
+    derived = {prev_p: "P", cur_p: "C"}
+    for n in own_nodes(f.node):
+        if isinstance(n, ast.Assign) and len(n.targets) == 1 and isinstance(n.targets[0], ast.Name):
+            used = {x.id for x in ast.walk(n.value) if isinstance(x, ast.Name)}
+            kinds = {derived[u] for u in used if u in derived}
+            if len(kinds) == 1 and n.targets[0].id not in (prev_p, cur_p):
+                derived[n.targets[0].id] = next(iter(kinds))
+    n_lists = 0
+    for n in own_nodes(f.node):
+        if isinstance(n, ast.List) and isinstance(n.ctx, ast.Load):
+            seq = []
+            for e in n.elts:
+                used = {x.id for x in ast.walk(e) if isinstance(x, ast.Name)}
+                kinds = {derived[u] for u in used if u in derived}
+                seq.append(next(iter(kinds)) if len(kinds) == 1 else "?")
+            if "P" in seq and "C" in seq:
+                n_lists += 1
+                chk.count("P4-verbatim-words")
+                ok = seq.index("C") > max(i for i, k in enumerate(seq) if k == "P")
+                chk.require(ok, "P4-verbatim-words", f"_append_node_or_token:element-order:{norm_stmt(n)[:50]}", f"{f.rel}:{n.lineno}",
+                            f"`{norm_stmt(n)}` puts the new piece before the pieces collected so far: `@(x)suf` would become ('suf', *x)")
+    chk.units["word_lists_with_both_sides"] = n_lists
     return
 
 
